@@ -740,6 +740,20 @@ def fixed_progs() -> list[dict]:
             "stylesheet": [{"href": "c.css", "disabled": b, "data-w": a}]}]}], []]]))
         out.append(item(f"eq-jsx-{j}", [["jsx", "Foo", ["kid"], [["open", a], ["count", b],
                                                                  ["opts", {"d": [["k", a], ["l", {"l": [a, b]}]]}]]]]))
+    # read, then change something BELOW the object that was read, then look again: an inner tag (register 0) inside
+    # an outer one (register 1, optionally inside register 2); every kind of read x every way of adding a late
+    # dependency / child to the inner tag.  The worker compares with the same program without the reads.
+    late = {"n": ["M", {"name": "late", "version": "1.0", "script": {"src": "late.js"}}]}
+    for j, read in enumerate([["deps", 1, False], ["deps", 1, True], ["render", 1], ["attrs", 1]]):
+        for k, mut in enumerate([["append", 0, [late]], ["extend", 0, [late, "x"]], ["iadd", 0, [late]],
+                                 ["insert", 0, 0, late], ["append", 0, ["plain text"]]]):
+            for deep in (False, True):
+                steps = [["tag", "span", None, ["i"], []], ["tag", "div", None, [{"r": 0}, "t"], []]]
+                if deep:
+                    steps.append(["tag", "section", None, ["s", {"r": 1}], []])
+                top = 2 if deep else 1
+                steps += [[read[0], top] + read[2:], mut, [read[0], top] + read[2:]]
+                out.append(item(f"read-mutate-below-{j}-{k}-{int(deep)}", steps))
     # the same text as a plain string, trusted markup, subclass instances: children and attributes
     for j, t in enumerate(["a<b", "a&lt;b", 'q"q', "1"]):
         for k, v in enumerate([t, H(t), U(t), {"hs": t}, {"n": ["R", t]}]):
